@@ -135,7 +135,7 @@ func clip(s string) string {
 	return s
 }
 
-var kinds = []string{"none", "none", "task", "pipeline", "dep", "watcher", "dupname", "dupstage", "cycle1", "cycle2", "cycle3", "selfdep", "dep-other-pipeline", "dep-task-name", "dep-pipeline-name", "no-task-no-pipeline", "dep-blank"}
+var kinds = []string{"none", "none", "task", "pipeline", "dep", "watcher", "dupname", "dupstage", "cycle1", "cycle2", "cycle3", "selfdep", "dep-other-pipeline", "dep-task-name", "dep-pipeline-name", "no-task-no-pipeline", "dep-blank", "dep-padded"}
 
 // names of the stages that close an inclusion cycle: before and behind the other stage names in any ordering
 var closers = []string{"next", "zz-next", "a-next", "Next"}
@@ -220,6 +220,16 @@ func genCase(rt *rapid.T) Case {
 	case "dep-blank":
 		// a depends_on entry that is empty or blank names no stage either
 		st.Deps = append(st.Deps, rapid.SampledFrom([]string{"", " ", "\t", "  "}).Draw(rt, "blank"))
+	case "dep-padded":
+		// the name of an existing stage with blanks around it is another name
+		base := c.Pipes[pi][(si+1)%len(c.Pipes[pi])].Name
+		if len(c.Pipes[pi]) < 2 {
+			c.Pipes[pi] = append(c.Pipes[pi], Stage{Name: "x", Task: c.Tasks[0]})
+			base = "x"
+			st = &c.Pipes[pi][si]
+		}
+		st.Deps = append(st.Deps, rapid.SampledFrom([]string{" %s", "%s ", "\t%s", " %s "}).Draw(rt, "padding"))
+		st.Deps[len(st.Deps)-1] = fmt.Sprintf(st.Deps[len(st.Deps)-1], base)
 	case "no-task-no-pipeline":
 		// a stage that has a name but runs nothing
 		st.Task, st.Pipe = "", ""
